@@ -54,8 +54,11 @@ def leaves1():
             ("cmp", "eq", ("c", X, "get_p", ()), L(0)), ("cmp", "lt", ("c", X, "get_p", ()), ("c", X, "get_q", ())),
             ("cmp", "eq", ("i", t, 0), L(0)) if False else ("cmp", "ge", ("c", X, "get_q", ()), p),
             ("pf", "val_eq", (p, L(0))), ("pf", "val_eq", (s, L(""))),
+            # a user FUNCTION (@predicate) called as a value: what it returns is compared like any other value
+            ("cmp", "eq", ("pfv", "p_val", (X,)), L(0)), ("cmp", "lt", ("pfv", "p_val", (X,)), q), ("cmp", "ge", q, ("pfv", "p_val", (X,))),
+            ("in", ("pfv", "p_val", (X,)), t), ("cmp", "eq", ("pfv", "s_val", (X,)), L("")), ("cmp", "ne", ("pfv", "s_val", (X,)), s),
             # controls: condition position is boolean
-            ("t", p), ("t", s), ("t", A(X, "flag"))]
+            ("t", p), ("t", s), ("t", A(X, "flag")), ("pf", "p_val", (X,)), ("pf", "s_val", (X,))]
     return out
 
 
@@ -67,7 +70,7 @@ def leaves2():
 
 REP1 = [("cmp", "eq", A(X, "p"), L(0)), ("cmp", "le", A(X, "q"), A(X, "p")), ("in", A(X, "p"), A(X, "t")),
         ("cmp", "ne", A(X, "s"), L(""))]
-SELS = [(X, A(X, "p")), (A(X, "p"), A(X, "s"), X), (A(X, "t"),), (A(X, "flag"), X), (("c", X, "get_p", ()), X),
+SELS = [(X, ("pfv", "p_val", (X,))), (("pfv", "s_val", (X,)), X), (X, A(X, "p")), (A(X, "p"), A(X, "s"), X), (A(X, "t"),), (A(X, "flag"), X), (("c", X, "get_p", ()), X),
         (A(X, "p"),), (A(X, "s"),)]
 
 
@@ -120,7 +123,7 @@ def cases(tier, inst):
         for c in REP1 + [("cmp", "ge", A(X, "p"), L(0))]:
             yield ("sel", sel, c)
     # a value expression selected through entity(...): the results are the values themselves
-    for term in (A(X, "p"), A(X, "s"), A(X, "t"), A(X, "flag"), ("c", X, "get_p", ()), ("fl", A(X, "items")),
+    for term in (("pfv", "p_val", (X,)), ("pfv", "s_val", (X,)), A(X, "p"), A(X, "s"), A(X, "t"), A(X, "flag"), ("c", X, "get_p", ()), ("fl", A(X, "items")),
                  ("i", A(X, "t"), 0)):
         for c in (None, ("cmp", "ge", A(X, "q"), L(0)), ("cmp", "eq", A(X, "q"), L(0))):
             if term[0] == "i" and c is None:
